@@ -1,7 +1,7 @@
 (* run_case: the single entry point of the extracted model.  One case term in, one observation
    term out; the same function is evaluated with vm_compute for the extraction cross-check. *)
 From Coq Require Import String.
-From AvroV Require Import Base Varint Schema Bytes Names Codec Conforms Layout Validate Rabin SingleObject Resolve Compat Resolution Container Sink Settings Sexp Lit SchemaJson PCF Parser.
+From AvroV Require Import Base Varint Schema Bytes Names Codec Conforms Layout Validate Rabin SingleObject Resolve Compat Resolution Container Sink Settings Sexp Lit SchemaJson PCF Parser CodecFrame.
 Local Open Scope string_scope.
 
 Definition run_fuel : nat := 300.
@@ -310,6 +310,11 @@ Definition run_case (x : sexp) : sexp :=
         | Some j => obs_of_res (fun s => [sexp_of_schema s]) (parse_schema run_fuel j)
         | None => obs_bad
         end
+      | _ => obs_bad
+      end
+    else if op =? "crc32" then
+      match args with
+      | [Hex b] => L [Sym "ok"; Num (Z.of_N (crc32 b))]
       | _ => obs_bad
       end
     else if op =? "parse-list" then
